@@ -35,6 +35,11 @@ typedef struct nni_verif_ops {
 
 extern nni_verif_ops nni_verif;
 
+// Number of scans the aio expire threads have started (lets a harness that
+// advanced the virtual clock wait until the new time has been acted upon).
+extern unsigned long nni_verif_expire_scans(void);
+extern void          nni_verif_expire_scan_inc(void);
+
 extern bool nni_verif_tracing(void);
 // fmt/... produce the body of a JSON object without braces, e.g.
 // "\"rv\":%d"; may be NULL.
